@@ -768,6 +768,11 @@ def kmer_lemmas(F, rep, tystr, which=None, slice_cap=32):
     if want("bucket") and K >= 4:
         def f():
             key = "filter::bucket::<%s>" % tystr
+            if key not in F.insts:
+                # a private helper: if it is gone or has another shape, which bucket a k-mer goes to is decided by the pass-membership
+                # tables of filter_kmers alone
+                rep.inconclusive("L-bucket", tag, "the private helper filter::bucket::<%s> is not among the driver's instances (renamed, inlined or given another signature)" % tystr)
+                return
             r, _ = run_inst(F, key, [kt.sym("s")])
             spec = [ZERO] * 64
             for j in range(4):
